@@ -7,6 +7,20 @@
 //   * a pointer read inside a critical section is never disposed while that section lasts (deref check);
 //   * every object is disposed at most once, only after it was retired; after destruction of the singleton
 //     every retired object has been disposed exactly once (C05).
+//
+// Tie A (`--tie 1`): the same client produces traces that the Lean machine Algo/RCU replays step by step
+// (tools/rcu_pre.py translates them into the machine's vocabulary).  Differences of that mode, none of which touches
+// the oracles above:
+//   * every thread attaches to the singleton before the first scheduled step and detaches after the last one
+//     (thread_attach / thread_detach), so that the thread list is the fixed set the machine assumes; `REC <i>` notes
+//     say that the thread's record is the i-th one visited by flip_and_wait (the machine's thread i, location ctl<i>);
+//   * the buffer of general_buffered is a TracingBuffer: the real VyukovMPMCCycleQueue (judged by C07) runs quietly and
+//     every call is ONE pseudo-event `push buf o<id> 1|0`, `pop buf o<id> 1` / `pop buf - 0`, `ld buf.size <n>`;
+//     the queue counts its items unless `--counted 0` (the library's default queue: size() is always 0);
+//   * the disposer is the pseudo-event `dispose obj o<id>`; `RETIRE o<id>` marks where retire_ptr begins inside `swap`;
+//     the destruction of the singleton in finish() is bracketed by `CALL destruct` / `RET` (thread -1: main);
+//   * the locations gctl (m_nGlobalControl), lock (m_Lock), epoch (m_nCurEpoch), ctl<i> (m_nAccessControl) are named;
+//   * programs contain no swap2 (batch_retire is not an operation of the machine).
 #include <cds/init.h>
 #include <cds/urcu/general_instant.h>
 #include <cds/urcu/general_buffered.h>
@@ -41,10 +55,12 @@ struct World {
     }
 };
 static World* W = nullptr;
+static bool g_tie = false;       // tie-A mode (see the header comment)
 
 static void dispose_obj( void* v )
 {
     Obj* p = static_cast<Obj*>( v );
+    if ( g_tie ) pseudo_begin();
     if ( ++p->disposed > 1 ) W->fail( "disposed-twice obj=" + std::to_string( p->id ));
     if ( !p->retired_at ) W->fail( "disposed-but-never-retired obj=" + std::to_string( p->id ));
     for ( int t = 0; t < MAXT; ++t ) {
@@ -54,6 +70,7 @@ static void dispose_obj( void* v )
             if ( W->depth[t] > 0 && W->seen[t][c] == p )
                 W->fail( "disposed-while-referenced-in-section obj=" + std::to_string( p->id ) + " reader=" + std::to_string( t ));
     }
+    if ( g_tie ) pseudo_end( "dispose", "obj", name_of( p ));
 }
 
 struct IRcu {
@@ -64,7 +81,15 @@ struct IRcu {
     virtual void batch( std::vector<Obj*> const& v ) = 0;
     virtual void sync() = 0;
     virtual void destroy() = 0;
+    virtual int my_index() = 0;             // position of the calling thread's record in the order flip_and_wait visits them
+    virtual void name_locations() = 0;      // gctl, lock, (epoch)
+    virtual size_t buffer_capacity() = 0;   // physical capacity of the buffer (0: no buffer)
 };
+
+template <class Impl> void name_epoch( Impl* p, decltype( &Impl::m_nCurEpoch )) { reg_name( &p->m_nCurEpoch, sizeof( p->m_nCurEpoch ), "epoch" ); }
+template <class Impl> void name_epoch( Impl*, ... ) {}
+template <class Impl> size_t bufcap_of( Impl* p, decltype( &Impl::m_Buffer )) { return p->m_Buffer.capacity(); }
+template <class Impl> size_t bufcap_of( Impl*, ... ) { return 0; }
 
 template <class RCU>
 struct RcuT : IRcu {
@@ -80,14 +105,70 @@ struct RcuT : IRcu {
     }
     void sync() override { RCU::synchronize(); }
     void destroy() override { rcu.reset(); }
+    typedef typename RCU::rcu_implementation impl;
+    int my_index() override
+    {
+        auto* mine = cds::threading::getRCU<typename RCU::rcu_tag>();
+        int i = 0;
+        for ( auto* r = impl::instance()->m_ThreadList.head( atomics::memory_order_relaxed ); r; r = r->m_list.next_, ++i )
+            if ( r == mine ) return i;
+        return -1;
+    }
+    void name_locations() override
+    {
+        impl* p = impl::instance();
+        reg_name( &p->m_nGlobalControl, sizeof( p->m_nGlobalControl ), "gctl" );
+        reg_name( &p->m_Lock, sizeof( p->m_Lock ), "lock" );
+        name_epoch( p, nullptr );
+    }
+    size_t buffer_capacity() override { return bufcap_of( impl::instance(), nullptr ); }
 };
 
 typedef cds::container::VyukovMPMCCycleQueue< cds::urcu::epoch_retired_ptr > rcu_buffer;
+
+// the same queue with item counting: size() is the number of items (with the default traits size() is always 0, so
+// that push_buffer's test `m_Buffer.size() >= capacity()` never fires and only a full buffer triggers synchronize)
+struct counted_traits : cds::container::vyukov_queue::traits { typedef cds::atomicity::item_counter item_counter; };
+typedef cds::container::VyukovMPMCCycleQueue< cds::urcu::epoch_retired_ptr, counted_traits > rcu_buffer_counted;
+
+// Buffer parameter of general_buffered in tie-A mode: the real queue, every call one atomic pseudo-event
+template <class Queue>
+struct TracingBuffer {
+    typedef cds::urcu::epoch_retired_ptr value_type;
+    mutable Queue q;
+    explicit TracingBuffer( size_t n ) : q( n ) {}
+    bool push( value_type const& v )
+    {
+        pseudo_begin();
+        set_quiet( true ); bool ok = q.push( v ); set_quiet( false );
+        pseudo_end( "push", "buf", name_of( v.m_p ), ok ? "1" : "0" );
+        return ok;
+    }
+    bool pop( value_type& v )
+    {
+        pseudo_begin();
+        set_quiet( true ); bool ok = q.pop( v ); set_quiet( false );
+        pseudo_end( "pop", "buf", ok ? name_of( v.m_p ) : std::string( "-" ), ok ? "1" : "0" );
+        return ok;
+    }
+    size_t size() const
+    {
+        pseudo_begin();
+        set_quiet( true ); size_t n = q.size(); set_quiet( false );
+        pseudo_end( "ld", "buf.size", std::to_string( n ));
+        return n;
+    }
+    size_t capacity() const { return q.capacity(); }
+};
 typedef cds::urcu::gc< cds::urcu::general_instant< cds::sync::spin > > rcu_gpi;
 typedef cds::urcu::gc< cds::urcu::general_buffered< rcu_buffer, cds::sync::spin > > rcu_gpb;
+typedef cds::urcu::gc< cds::urcu::general_buffered< TracingBuffer<rcu_buffer>, cds::sync::spin > > rcu_gpb_tie;   // same singleton slot (general_buffered_tag)
+typedef cds::urcu::gc< cds::urcu::general_buffered< TracingBuffer<rcu_buffer_counted>, cds::sync::spin > > rcu_gpb_tiec;
 
 struct Gpi : RcuT<rcu_gpi> { Gpi() { rcu.reset( new rcu_gpi ); } };
 struct Gpb : RcuT<rcu_gpb> { explicit Gpb( size_t cap ) { rcu.reset( new rcu_gpb( cap )); } };
+struct GpbTie : RcuT<rcu_gpb_tie> { explicit GpbTie( size_t cap ) { rcu.reset( new rcu_gpb_tie( cap )); } };
+struct GpbTieC : RcuT<rcu_gpb_tiec> { explicit GpbTieC( size_t cap ) { rcu.reset( new rcu_gpb_tiec( cap )); } };
 
 struct Fixture {
     static char const* family() { return "rcu"; }
@@ -97,11 +178,18 @@ struct Fixture {
     std::string variant;
     int ncells = 2;
     size_t cap = 0;
+    bool tie = false;
+    bool counted = true;             // tie-A mode: the buffer counts its items (`--counted 0`: the library's default queue, size() == 0)
+    int nthreads = 0;
     bool failed = false;
     std::string failure;
 
     explicit Fixture( Case const& c ) : variant( c.variant )
     {
+        tie = c.optl( "tie", 0 ) != 0;
+        g_tie = tie;
+        counted = c.optl( "counted", 1 ) != 0;
+        nthreads = c.threads;
         world.reset( new World );
         W = world.get();
         std::memset( W->depth, 0, sizeof W->depth );
@@ -112,7 +200,10 @@ struct Fixture {
         static size_t const caps[] = { 2, 4, 2, 8, 4 };
         cap = size_t( c.optl( "cap", long( caps[c.index % 5] )));
         if ( variant == "gpi" ) rcu.reset( new Gpi );
+        else if ( tie && counted ) rcu.reset( new GpbTieC( cap ));
+        else if ( tie ) rcu.reset( new GpbTie( cap ));
         else rcu.reset( new Gpb( cap ));
+        if ( tie ) rcu->name_locations();
         for ( int i = 0; i < ncells; ++i ) {
             W->cells[i].store( W->make());
             char nm[16]; std::snprintf( nm, sizeof nm, "cell%d", i );
@@ -121,6 +212,13 @@ struct Fixture {
     }
     ~Fixture() { if ( rcu ) rcu->destroy(); W = nullptr; }
     std::string spec() const { return "none"; }
+    // configuration of the Lean machine (Algo/RCU initCfg): cap = threshold passed to the constructor, bufcap = real capacity()
+    std::string header_extra() const
+    {
+        if ( !tie ) return std::string();
+        return "flavour=" + variant + " nthreads=" + std::to_string( nthreads ) + " cap=" + std::to_string( variant == "gpi" ? 0 : cap )
+             + " bufcap=" + std::to_string( rcu->buffer_capacity()) + " counted=" + ( variant != "gpi" && counted ? "1" : "0" ) + " tie=1";
+    }
 
     // programs keep the API's rules: retire / synchronize only outside a critical section; locks are balanced
     std::vector<std::vector<Op>> program( Rng& r, int nthreads, int nops )
@@ -139,7 +237,7 @@ struct Fixture {
                     else { p[t].push_back( Op( "runlock" )); --depth; }
                 }
                 else if ( writer && k < 50 ) p[t].push_back( Op( "swap", long( r.below( ncells ))));
-                else if ( writer && k < 58 ) p[t].push_back( Op( "swap2" ));
+                else if ( writer && k < 58 ) p[t].push_back( tie ? Op( "swap", long( r.below( ncells ))) : Op( "swap2" ));
                 else if ( k < 66 ) p[t].push_back( Op( "sync" ));
                 else { p[t].push_back( Op( "rlock" )); ++depth; }
             }
@@ -147,8 +245,23 @@ struct Fixture {
         }
         return p;
     }
-    void thread_begin( int ) { set_quiet( true ); cds::threading::Manager::attachThread(); set_quiet( false ); }
-    void thread_end( int ) { set_quiet( true ); cds::threading::Manager::detachThread(); set_quiet( false ); }
+    // tie-A mode: all threads are attached for the whole scheduled run (run_case prologue / epilogue: unscheduled, untraced)
+    void thread_attach( int ) { if ( tie ) cds::threading::Manager::attachThread(); }
+    void thread_detach( int ) { if ( tie ) cds::threading::Manager::detachThread(); }
+    void thread_begin( int )
+    {
+        set_quiet( true );
+        if ( !tie ) cds::threading::Manager::attachThread();
+        else {
+            int i = rcu->my_index();
+            auto* rec = variant == "gpi" ? (void*) &cds::threading::getRCU<cds::urcu::general_instant_tag>()->m_nAccessControl
+                                         : (void*) &cds::threading::getRCU<cds::urcu::general_buffered_tag>()->m_nAccessControl;
+            reg_name( rec, sizeof( uint32_t ), "ctl" + std::to_string( i ));
+            ev_note( "REC " + std::to_string( i ));
+        }
+        set_quiet( false );
+    }
+    void thread_end( int ) { if ( !tie ) { set_quiet( true ); cds::threading::Manager::detachThread(); set_quiet( false ); } }
 
     Obj* unlink( int c )
     {
@@ -182,7 +295,7 @@ struct Fixture {
         }
         if ( op.name == "swap" ) {
             Obj* old = unlink( int( op.args[0] ));
-            if ( old ) { old->retired_at = tick(); rcu->retire( old ); }
+            if ( old ) { old->retired_at = tick(); if ( tie ) ev_note( "RETIRE " + name_of( old )); rcu->retire( old ); }
             return { old ? long( old->id ) : 0L };
         }
         if ( op.name == "swap2" ) {          // batch_retire of two unlinked objects
@@ -206,7 +319,9 @@ struct Fixture {
     }
     void finish( std::ostream& out )
     {
+        if ( tie ) ev_note( "CALL destruct" );
         rcu->destroy();
+        if ( tie ) ev_note( "RET" );
         rcu.reset();
         size_t retired = 0, disposed = 0;
         for ( auto& o : W->objs ) {
